@@ -18,6 +18,7 @@ only scans what somebody asked for), which real traces are checked against like 
 import LLBuild.Lemmas.Engine.Run
 import LLBuild.Lemmas.Engine.Fingerprint
 import LLBuild.Lemmas.Engine.NullBuild
+import LLBuild.Lemmas.Engine.Settle
 
 set_option linter.unusedVariables false
 
@@ -307,6 +308,34 @@ theorem C02_null_build_runs_nothing {P : Program} {s s' : St} {S : Key → Prop}
     have h := NB.along evs s1 s' (NB.start hS hr hs) hrun hone
     exact ⟨h.2, h.1.ran, h.1.vals⟩
 
+/-- **A build that changes nothing after a finished build runs nothing** (the null-build clause over
+whole histories).  Take any reachable state `s` of a build in which nothing is pending and which has
+not returned yet (the moment `build()` is about to return), let the build end by events that change
+no record (`ret`, the database epilogue, `tail`, registrations), and start a new build of any key `r`
+that was complete in `s` — with the external state untouched, since `mutate` is not among those
+events.  If the rules still accept the values they hold (`valid`; a client fact: e.g. a command's
+outputs are as it left them), then in every accepted continuation of the new build no task is
+created and no stored value changes.  No hypothesis on signatures, epochs or recorded dependencies:
+those are supplied by the invariants `Inv` and `Inv2` of the abstract engine. -/
+theorem C02_null_build_after_build {P : Program} (hP : P.WF) {evs0 evs1 evs2 : List Event}
+    {s sq s' : St} {r : Key}
+    (h0 : run P {} evs0 = some s) (hd : s.pendingDropped = false)
+    (hret : s.returned = false) (hpend : s.pending = [])
+    (hv : ∀ k, s.status k = .done → P.valid s.env k (s.mem.res k).value = true)
+    (h1 : run P s evs1 = some sq) (hk : ∀ e ∈ evs1, e.keepsRecords = true)
+    (hr : s.status r = .done)
+    (h2 : run P sq (.buildStart r :: evs2) = some s') (hone : ∀ e ∈ evs2, e.endsBuild = false) :
+    (∀ k, Event.create k ∉ evs2) ∧ s'.ran = [] ∧ (∀ k, (s'.mem.res k).value = (s.mem.res k).value) := by
+  have hs := settled_of_done (reach_inv hP h0 hd) (reach_inv2 h0) hret hpend hv
+  have hq := Settled.keepAll evs1 s sq h1 hk hs.2 hs.1
+  have := C02_null_build_runs_nothing hq.1 hr h2 hone
+  refine ⟨this.1, this.2.1, ?_⟩
+  intro k
+  rw [this.2.2 k]
+  -- the values at `sq` are those at `s`: shown for complete rules by `Settled.transport`; for all
+  -- rules we go through the run once more
+  exact keepsRecords_values evs1 s sq h1 hk k
+
 namespace NullBuildExample
 
 /-- rule 1 reads external state, rule 2 adds one to the value of rule 1 -/
@@ -344,6 +373,68 @@ example : ∃ s', run P s0 (.buildStart 2 :: trace) = some s' ∧ (∀ e ∈ tra
   have h : (run P s0 (.buildStart 2 :: trace)).isSome = true := by decide
   obtain ⟨s', hs'⟩ := Option.isSome_iff_exists.1 h
   exact ⟨s', hs', by decide, settled, Or.inr rfl⟩
+
+theorem P_WF : P.WF := by
+  refine ⟨?_, ?_, ?_, ?_, ?_, ?_⟩
+  · intro k env env' recv _ hs
+    by_cases e : k = 1
+    · subst e; simp only [P, if_true]; exact hs (by simp [P])
+    · simp [P, e]
+  · intro k env v hs hv
+    have e : k = 1 := by simpa [P] using hs
+    subst e; simpa [P] using hv
+  · intro k recv hs
+    have e : k = 1 := by simpa [P] using hs
+    subst e; simp [P]
+  · intro k recv _; rfl
+  · intro k recv d hd; simp [P] at hd
+  · intro d env env' hs h
+    have e : d = 1 := by simpa [P] using hs
+    subst e; simpa [P] using h
+
+/-- a first build of key 2 from nothing (external state 1 ↦ 3): both tasks run -/
+def evs0 : List Event :=
+  [.mutate 1 3, .buildStart 2, .queueCreated, .dbIter 1, .lookup 2, .scanning 2, .needs 2 0 none, .create 2,
+   .start 2 [⟨1, 0, 0⟩], .lookup 1, .scanning 1, .needs 1 0 none, .create 1, .start 1 [], .inputsAvail 1 [],
+   .complete 1 3 false, .finished 1 { value := 3, sig := 7, computedAt := 1, builtAt := 1, deps := [] },
+   .provide 2 0 1 3 [], .inputsAvail 2 [], .complete 2 4 false,
+   .finished 2 { value := 4, sig := 7, computedAt := 1, builtAt := 1, deps := [⟨1, false, false⟩] }]
+def evs1 : List Event := [.ret 4, .dbEnd, .tail 0 0]
+def evs2 : List Event :=
+  [.queueCreated, .dbIter 2, .scanning 2, .valid 2 4 true, .scanning 1, .valid 1 3 true, .upToDate 1, .upToDate 2,
+   .ret 4, .dbEnd]
+
+/-- non-vacuity of `C02_null_build_after_build`: a complete accepted history (first build, end of
+build, null build) meets every hypothesis -/
+example : ∃ s sq s', run P {} evs0 = some s ∧ s.pendingDropped = false ∧ s.returned = false ∧ s.pending = [] ∧
+    (∀ k, s.status k = .done → P.valid s.env k (s.mem.res k).value = true) ∧
+    run P s evs1 = some sq ∧ (∀ e ∈ evs1, e.keepsRecords = true) ∧ s.status 2 = .done ∧
+    run P sq (.buildStart 2 :: evs2) = some s' ∧ (∀ e ∈ evs2, e.endsBuild = false) := by
+  have h0 : (run P {} evs0).isSome = true := by decide
+  obtain ⟨s, hs⟩ := Option.isSome_iff_exists.1 h0
+  have hall : ((run P {} evs0).bind (fun s => (run P s evs1).bind (fun sq =>
+      (run P sq (.buildStart 2 :: evs2)).map (fun s' => (s, sq, s'))))).isSome = true := by decide
+  rw [hs] at hall
+  simp only [Option.bind] at hall
+  cases h1 : run P s evs1 with
+  | none => rw [h1] at hall; simp at hall
+  | some sq =>
+    rw [h1] at hall
+    simp only [Option.bind] at hall
+    cases h2 : run P sq (.buildStart 2 :: evs2) with
+    | none => rw [h2] at hall; simp at hall
+    | some s' =>
+      have hprops : ((run P {} evs0).map (fun s => (!s.pendingDropped && !s.returned && s.pending.isEmpty &&
+          (s.status 2 == .done) && (s.env 1 == 3) && ((s.mem.res 1).value == 3)))) = some true := by decide
+      rw [hs] at hprops
+      simp only [Option.map, Option.some.injEq, Bool.and_eq_true, Bool.not_eq_eq_eq_not, Bool.not_true,
+        beq_iff_eq, List.isEmpty_iff] at hprops
+      obtain ⟨⟨⟨⟨⟨a, b⟩, c⟩, d2⟩, e1⟩, v1⟩ := hprops
+      refine ⟨s, sq, s', hs, a, b, c, ?_, h1, by decide, d2, h2, by decide⟩
+      intro k _
+      by_cases e : k = 1
+      · subst e; simp [P, e1, v1]
+      · simp [P, e]
 
 end NullBuildExample
 
